@@ -463,7 +463,7 @@ func (p *parser) primary() Expr {
 
 var blockRe = regexp.MustCompile(`(?s)/\*@(.*?)@\*/`)
 var clauseKw = map[string]bool{"requires": true, "ensures": true, "modifies": true, "loop": true, "panics": true,
-	"assume": true, "exit": true, "func": true, "pred": true, "spec": true, "inline": true, "noinline": true, "pure": true, "ghost": true, "rec": true, "bits": true, "unfold": true, "logs": true, "overflow": true, "freshresult": true, "lemma": true, "bitwidth": true, "ufun": true, "purefield": true, "tokens": true, "bvtype": true, "vocab": true, "extern": true}
+	"assume": true, "exit": true, "func": true, "pred": true, "spec": true, "inline": true, "noinline": true, "pure": true, "ghost": true, "rec": true, "bits": true, "unfold": true, "logs": true, "overflow": true, "freshresult": true, "lemma": true, "bitwidth": true, "ufun": true, "purefield": true, "tokens": true, "bvtype": true, "vocab": true, "extern": true, "sets": true}
 
 // ReadContracts parses every contracts_verif*.go file of a package directory.
 func ReadContracts(dir string) (*PkgContracts, error) {
@@ -547,6 +547,22 @@ func (pc *PkgContracts) parseBlock(body, file string, line0 int) error {
 				pc.Bits = map[string]int{}
 			}
 			pc.Bits[f[0]] = n
+		case "ghost":
+			// ghost name(p *T) R  -- a ghost field of objects of a type outside the module (zero when the object is created)
+			cur = nil
+			op := strings.Index(it.text, "(")
+			cl := strings.LastIndex(it.text, ")")
+			if op < 0 || cl < op {
+				return errf("ghost header")
+			}
+			pd := &PredDecl{Name: strings.TrimSpace(it.text[:op]), Kind: "ghost", ResType: strings.TrimSpace(it.text[cl+1:])}
+			f := strings.Fields(strings.TrimSpace(it.text[op+1 : cl]))
+			if len(f) != 2 || !strings.HasPrefix(f[1], "*") {
+				return errf("ghost name(p *T) R")
+			}
+			pd.Params = []string{f[0]}
+			pd.ParamTypes = []string{f[1]}
+			pc.Preds[pd.Name] = pd
 		case "ufun":
 			// ufun name(p1 T1, p2 T2) R  -- uninterpreted specification function
 			cur = nil
@@ -673,6 +689,28 @@ func (pc *PkgContracts) parseBlock(body, file string, line0 int) error {
 			cl := &Clause{Kind: it.kw, Text: it.text, Line: it.line}
 			text := it.text
 			switch it.kw {
+			case "sets":
+				// sets ghost(x) = expr   (extern func only; expr is evaluated in the state before the call)
+				eq := strings.Index(text, "=")
+				if eq < 0 {
+					return errf("sets ghost(x) = expr")
+				}
+				lhs, err := ParseExpr(text[:eq])
+				if err != nil {
+					return errf("%v", err)
+				}
+				rhs, err := ParseExpr(text[eq+1:])
+				if err != nil {
+					return errf("%v", err)
+				}
+				call, ok := lhs.(*ECall)
+				if !ok || len(call.Args) != 1 {
+					return errf("sets ghost(x) = expr")
+				}
+				cl.E = rhs
+				cl.Mods = []Expr{lhs}
+				cur.Clauses = append(cur.Clauses, cl)
+				continue
 			case "overflow":
 				cur.Overflow = true
 				continue
